@@ -243,8 +243,24 @@ func runC01(c *Ctx) {
 		}
 		return r == want
 	}
+	corr := &Batch{c: c}
+	defer corr.Flush()
 	one := func(idx int, fam string, doc []byte) {
 		c.fam(fam, "cases", 1)
+		if len(doc) <= 20000 {
+			// model of Parse's construction (offsets, lines, sources) and of the streaming machine (whole-input reader)
+			memMetaCorr(c, corr, doc)
+			if len(doc) <= 1500 {
+				blocksCorr(c, corr, doc, sched{"whole", nil, false}, -1, 0)
+				// the hypothesis of the tiling theorem C01_tiling_mem: the block-phase line parser (the Lean model of it,
+				// which the correspondence above ties to the code) meets LPContract at every step of this run
+				orc.Add("lpcontract\t"+hx(doc)+"\t"+blocksExt(doc)+"\t"+blocksFold(doc), "ok", func(got string) {
+					c.report("tiling-theorem-hypothesis-LPContract-fails", doc, fam, got, func(x []byte) bool {
+						return c.drv.Ask1("lpcontract\t"+hx(x)+"\t"+blocksExt(x)+"\t"+blocksFold(x)) != "ok"
+					}, nil)
+				})
+			}
+		}
 		nroots := 0
 		for mode := 0; mode < 4; mode++ {
 			if mode >= 2 && len(doc) > 2000 {
